@@ -86,6 +86,54 @@ type nfSlot struct {
 	xl         map[string]context.CancelFunc // raw listens opened by xlisten: "L<n>" -> cancel
 	grant      map[string][]string           // live listens (also "r<i>") -> what the ack granted: "t" "p" "r" "u<j>"
 	order      []string                      // … in the order they were acknowledged
+	holdCancel   string                   // the next notifications/cancelled this client writes is held, under this listen name
+	cancelParked map[string]chan struct{} // listens whose cancellation is held in the client's transport -> release channel
+}
+
+// nfHoldTransport wraps the client's transport: a notifications/cancelled message can be held before
+// it is written (the goroutine that ClientSession.Unsubscribe / a cancelled listen context starts has
+// not got round to sending it), until the `canceldone` label. Nothing else is delayed.
+type nfHoldTransport struct {
+	inner Transport
+	w     *nfWorld
+	sl    *nfSlot
+}
+
+func (t *nfHoldTransport) Connect(ctx context.Context) (Connection, error) {
+	c, err := t.inner.Connect(ctx)
+	if err != nil {
+		return nil, err
+	}
+	return &nfHoldConn{Connection: c, w: t.w, sl: t.sl}, nil
+}
+
+type nfHoldConn struct {
+	Connection
+	w  *nfWorld
+	sl *nfSlot
+}
+
+func (c *nfHoldConn) Write(ctx context.Context, msg jsonrpc.Message) error {
+	if r, ok := msg.(*jsonrpc.Request); ok && r.Method == notificationCancelled {
+		var ch chan struct{}
+		c.w.mu.Lock()
+		if name := c.sl.holdCancel; name != "" {
+			c.sl.holdCancel = ""
+			ch = make(chan struct{})
+			c.sl.cancelParked[name] = ch
+		}
+		c.w.mu.Unlock()
+		if ch != nil {
+			<-ch
+		}
+	}
+	return c.Connection.Write(ctx, msg)
+}
+
+// nfFanSend: a write of a held notifySessions fan-out, parked in the server's sending middleware.
+type nfFanSend struct {
+	ch chan struct{}
+	ss *ServerSession
 }
 
 func nfAckGrant(ack string) []string {
@@ -180,10 +228,14 @@ type nfWorld struct {
 	parked  map[string][]chan struct{}
 	fired   []string
 	win     map[string]*nfWindow
-	content [2]int
+	content [3]int
 	descCtr int
 	ended   bool
 	xtag    string // an extra tag for the record of the op that just ran
+	refuse    map[int]bool          // URIs the SubscribeHandler refuses
+	stepKind  string                // the list-changed sends of this kind made now belong to a held fan-out: park them
+	fanParked map[string]*nfFanSend // kind -> the write the held fan-out of that kind is blocked in
+	renameTo  int                   // >= 0: resources/updated notifications sent now name this URI instead
 }
 
 // nfWindow: the features of one set are w<lo>..w<hi>; every effective change makes a content never seen before.
@@ -205,7 +257,7 @@ func (w *nfWindow) text(extra string) string {
 
 func nfURI(i int) string { return fmt.Sprintf("file:///u/%d", i) }
 func nfURIIndex(u string) int {
-	for i := 0; i < 2; i++ {
+	for i := 0; i < 3; i++ {
 		if u == nfURI(i) {
 			return i
 		}
@@ -241,7 +293,14 @@ func nfCap(tok string) (bool, bool) { // (set, listChanged)
 
 func (w *nfWorld) newServer(capT, capP, capR string) {
 	opts := &ServerOptions{
-		SubscribeHandler:   func(context.Context, *SubscribeRequest) error { return nil },
+		SubscribeHandler: func(_ context.Context, req *SubscribeRequest) error {
+			w.mu.Lock()
+			defer w.mu.Unlock()
+			if req.Params != nil && w.refuse[nfURIIndex(req.Params.URI)] {
+				return fmt.Errorf("subscription to %s refused", req.Params.URI)
+			}
+			return nil
+		},
 		UnsubscribeHandler: func(context.Context, *UnsubscribeRequest) error { return nil },
 		PageSize:           1000,
 	}
@@ -311,6 +370,39 @@ func (w *nfWorld) newServer(capT, capP, capR string) {
 				<-ch
 			}
 			return res, err
+		}
+	})
+	// Schedule points inside the fan-out loop of notifySessions: while the harness is stepping the
+	// fan-out of a kind (`cbrun <kind> step`, `fsend <kind>`), every list-changed send of that kind
+	// parks BEFORE the write (a transport whose write blocks, a slow sending middleware), holding no
+	// lock; `fsend` lets it go on. And: a server that reports a sub-resource (`rupdated u<j> names u<k>`).
+	w.s.AddSendingMiddleware(func(next MethodHandler) MethodHandler {
+		return func(ctx context.Context, method string, req Request) (Result, error) {
+			if k := nfKindOfMethod(method); k != "" {
+				var ch chan struct{}
+				w.mu.Lock()
+				if w.stepKind == k {
+					ss, _ := req.GetSession().(*ServerSession)
+					ch = make(chan struct{})
+					w.fanParked[k] = &nfFanSend{ch: ch, ss: ss}
+				}
+				w.mu.Unlock()
+				if ch != nil {
+					<-ch
+				}
+			}
+			if method == notificationResourceUpdated {
+				w.mu.Lock()
+				v := w.renameTo
+				w.mu.Unlock()
+				if p, ok := req.GetParams().(*ResourceUpdatedNotificationParams); ok && p != nil && v >= 0 {
+					q := *p
+					q.URI = nfURI(v)
+					ss, _ := req.GetSession().(*ServerSession)
+					req = &ServerRequest[*ResourceUpdatedNotificationParams]{Session: ss, Params: &q}
+				}
+			}
+			return next(ctx, method, req)
 		}
 	})
 	// two permanent resources whose content the harness versions
@@ -684,7 +776,7 @@ func (w *nfWorld) tables() string {
 		return "[" + strings.Join(p, " ") + "]"
 	}
 	out := "T" + dump(w.s.toolChangeSubscriptions) + " P" + dump(w.s.promptChangeSubscriptions) + " R" + dump(w.s.resourceChangeSubscriptions)
-	for i := 0; i < 2; i++ {
+	for i := 0; i < 3; i++ {
 		out += fmt.Sprintf(" U%d", i) + dump(w.s.resourceSubscriptions[nfURI(i)])
 	}
 	var sess []string
@@ -741,17 +833,82 @@ func (w *nfWorld) apply(toks []string) (obs string) {
 		sort.Slice(f, func(i, j int) bool { return nfKindIndex(f[i]) < nfKindIndex(f[j]) })
 		return w.withStray(strings.TrimSpace("fired " + strings.Join(f, " ")))
 	case "cbrun":
+		step := len(toks) == 3 && toks[2] == "step"
+		if len(toks) > 3 || (len(toks) == 3 && !step) {
+			return "bad-op"
+		}
+		k := toks[1]
 		w.mu.Lock()
-		q := w.parked[toks[1]]
+		if step && (!w.hook || w.fanParked[k] != nil) {
+			w.mu.Unlock()
+			return "refused" // no schedule point before the snapshot, or a held fan-out of the kind is in progress
+		}
+		q := w.parked[k]
 		if len(q) == 0 {
 			w.mu.Unlock()
 			return "none"
 		}
-		w.parked[toks[1]] = q[1:]
+		w.parked[k] = q[1:]
+		if step {
+			w.stepKind = k
+		}
 		w.mu.Unlock()
 		close(q[0])
 		synctest.Wait()
-		return w.sent(w.takeEvents())
+		if !step {
+			return w.sent(w.takeEvents())
+		}
+		w.mu.Lock()
+		w.stepKind = ""
+		open := w.fanParked[k] != nil
+		w.mu.Unlock()
+		if open {
+			return w.withStray("fan open")
+		}
+		return w.withStray("fan done")
+	case "fsend":
+		// the write the held fan-out of that kind is blocked in goes on; the loop runs to its next write
+		if len(toks) != 2 {
+			return "bad-op"
+		}
+		k := toks[1]
+		w.mu.Lock()
+		fp := w.fanParked[k]
+		if fp == nil {
+			w.mu.Unlock()
+			return "refused"
+		}
+		delete(w.fanParked, k)
+		w.stepKind = k
+		w.mu.Unlock()
+		addr := w.slotOfSS(fp.ss)
+		close(fp.ch)
+		synctest.Wait()
+		w.mu.Lock()
+		w.stepKind = ""
+		more := w.fanParked[k] != nil
+		w.mu.Unlock()
+		obs := addr + " " + w.sent(w.takeEvents())
+		if more {
+			return obs + " more"
+		}
+		return obs + " done"
+	case "policy":
+		if len(toks) != 3 || !strings.HasPrefix(toks[1], "u") || (toks[2] != "refuse" && toks[2] != "accept") {
+			return "bad-op"
+		}
+		u, err := strconv.Atoi(toks[1][1:])
+		if err != nil {
+			return "bad-op"
+		}
+		w.mu.Lock()
+		if toks[2] == "refuse" {
+			w.refuse[u] = true
+		} else {
+			delete(w.refuse, u)
+		}
+		w.mu.Unlock()
+		return "ok"
 	case "connect":
 		i := int(toks[1][1] - '0')
 		if w.slots[i] != nil {
@@ -761,7 +918,7 @@ func (w *nfWorld) apply(toks []string) (obs string) {
 		sl := &nfSlot{idx: i, sid: sid, modern: toks[3] == "modern", mask: toks[4], ids: map[string]string{},
 			rsubs: map[int]bool{}, held: map[string]*nfHeld{}, reached: map[string]bool{}, ackWant: "m",
 			ackParked: map[string]chan struct{}{}, live: map[string]bool{}, xl: map[string]context.CancelFunc{},
-			grant: map[string][]string{}}
+			grant: map[string][]string{}, cancelParked: map[string]chan struct{}{}}
 		w.newClient(sl)
 		ct, st := NewInMemoryTransports()
 		ss, err := w.s.Connect(context.Background(), st, nil)
@@ -779,7 +936,7 @@ func (w *nfWorld) apply(toks []string) (obs string) {
 		sl.connDone = make(chan error, 1)
 		w.slots[i] = sl
 		go func() {
-			cs, err := sl.client.Connect(context.Background(), ct, &ClientSessionOptions{ProtocolVersion: ver})
+			cs, err := sl.client.Connect(context.Background(), &nfHoldTransport{inner: ct, w: w, sl: sl}, &ClientSessionOptions{ProtocolVersion: ver})
 			w.mu.Lock()
 			sl.cs = cs
 			w.mu.Unlock()
@@ -830,17 +987,23 @@ func (w *nfWorld) apply(toks []string) (obs string) {
 		// xlisten c<i> L<n> <mask|-> [u<j>] [hold]: a further subscriptions/listen of the session, opened
 		// below the public API (ClientSession opens one list-changed listen per session and one per URI)
 		sl, ok := slot(1)
-		if !ok || len(toks) < 4 || len(toks) > 6 {
+		if !ok || len(toks) < 4 || len(toks) > 9 {
 			return "bad-op"
 		}
 		name, mask, rest := toks[2], toks[3], toks[4:]
-		uri := -1
-		if len(rest) > 0 && strings.HasPrefix(rest[0], "u") {
+		var uris []int
+		seenURI := map[int]bool{}
+		dupURI := false
+		for len(rest) > 0 && strings.HasPrefix(rest[0], "u") {
 			n, err := strconv.Atoi(rest[0][1:])
 			if err != nil {
 				return "bad-op"
 			}
-			uri, rest = n, rest[1:]
+			if seenURI[n] {
+				dupURI = true
+			}
+			seenURI[n] = true
+			uris, rest = append(uris, n), rest[1:]
 		}
 		hold := len(rest) == 1 && rest[0] == "hold"
 		if len(rest) > 1 || (len(rest) == 1 && !hold) {
@@ -856,18 +1019,18 @@ func (w *nfWorld) apply(toks []string) (obs string) {
 			PromptsListChanged:   strings.Contains(mask, "p"),
 			ResourcesListChanged: strings.Contains(mask, "r"),
 		}
-		anyKind := subs.ToolsListChanged || subs.PromptsListChanged || subs.ResourcesListChanged
-		if sl == nil || !sl.connected || !sl.modern || name == "m" || (anyKind && uri >= 0) || sl.live[name] {
+		if sl == nil || !sl.connected || !sl.modern || name == "m" || dupURI || sl.live[name] {
 			return "refused"
 		}
 		w.mu.Lock()
 		held := sl.ackParked[name]
+		heldC := sl.cancelParked[name]
 		w.mu.Unlock()
-		if held != nil {
+		if held != nil || heldC != nil {
 			return "refused" // a handler of that name (granted nothing) is still held after its ack write
 		}
-		if uri >= 0 {
-			subs.ResourceSubscriptions = []string{nfURI(uri)}
+		for _, u := range uris {
+			subs.ResourceSubscriptions = append(subs.ResourceSubscriptions, nfURI(u))
 		}
 		w.mu.Lock()
 		sl.ackWant = name
@@ -887,18 +1050,22 @@ func (w *nfWorld) apply(toks []string) (obs string) {
 			sl.live[name] = true
 			sl.xl[name] = cancel
 			w.xtag = sl.opened(name, a)
-		} else {
-			defer cancel()
 		}
 		if sl.ackParked[name] != nil {
 			a += " parked"
 		}
 		w.mu.Unlock()
+		if !sl.live[name] {
+			// granted nothing, or refused by the SubscribeHandler: the call is over; retire it
+			cancel()
+			synctest.Wait()
+		}
 		return w.withStray(a)
 	case "xend":
 		// xend c<i> <m|L<n>>: the client cancels that listen; its handler on the server ends
 		sl, ok := slot(1)
-		if !ok || len(toks) != 3 {
+		holdC := len(toks) == 4 && toks[3] == "hold"
+		if !ok || len(toks) < 3 || len(toks) > 4 || (len(toks) == 4 && !holdC) {
 			return "bad-op"
 		}
 		name := toks[2]
@@ -912,9 +1079,15 @@ func (w *nfWorld) apply(toks []string) (obs string) {
 		}
 		w.mu.Lock()
 		p := sl.ackParked[name]
+		pc := sl.cancelParked[name]
 		w.mu.Unlock()
-		if p != nil || !sl.live[name] {
+		if p != nil || pc != nil || !sl.live[name] {
 			return "refused"
+		}
+		if holdC {
+			w.mu.Lock()
+			sl.holdCancel = name
+			w.mu.Unlock()
 		}
 		if name == "m" {
 			sl.cs.listenCancel()
@@ -923,12 +1096,43 @@ func (w *nfWorld) apply(toks []string) (obs string) {
 			delete(sl.xl, name)
 		}
 		synctest.Wait()
+		if holdC {
+			w.mu.Lock()
+			parked := sl.cancelParked[name] != nil
+			sl.holdCancel = ""
+			w.mu.Unlock()
+			if parked {
+				return w.withStray("ok cancel-held")
+			}
+		}
+		delete(sl.live, name)
+		w.xtag = sl.endedListen(name)
+		return w.withStray("ok")
+	case "canceldone":
+		// canceldone c<i> <m|r<j>|L<n>>: the held notifications/cancelled of that listen is written
+		sl, ok := slot(1)
+		if !ok || len(toks) != 3 {
+			return "bad-op"
+		}
+		if sl == nil {
+			return "refused"
+		}
+		name := toks[2]
+		w.mu.Lock()
+		ch := sl.cancelParked[name]
+		delete(sl.cancelParked, name)
+		w.mu.Unlock()
+		if ch == nil {
+			return "refused"
+		}
+		close(ch)
+		synctest.Wait()
 		delete(sl.live, name)
 		w.xtag = sl.endedListen(name)
 		return w.withStray("ok")
 	case "subscribe", "unsubscribe":
 		sl, ok := slot(1)
-		hold := toks[0] == "subscribe" && len(toks) == 4 && toks[3] == "hold"
+		hold := len(toks) == 4 && toks[3] == "hold"
 		if !ok || len(toks) < 3 || len(toks) > 4 || (len(toks) == 4 && !hold) {
 			return "bad-op"
 		}
@@ -939,9 +1143,16 @@ func (w *nfWorld) apply(toks []string) (obs string) {
 		var err error
 		obs := "ok"
 		name := fmt.Sprintf("r%d", u)
+		w.mu.Lock()
+		pa := sl.ackParked[name]
+		pc := sl.cancelParked[name]
+		w.mu.Unlock()
 		if toks[0] == "subscribe" {
 			if hold && !sl.modern {
 				return "refused"
+			}
+			if sl.modern && pc != nil {
+				return "refused" // the stream ClientSession.Unsubscribe cancelled is still open on the server
 			}
 			was := sl.rsubs[u]
 			w.mu.Lock()
@@ -967,16 +1178,30 @@ func (w *nfWorld) apply(toks []string) (obs string) {
 				}
 			}
 		} else {
-			w.mu.Lock()
-			p := sl.ackParked[name]
-			w.mu.Unlock()
-			if p != nil {
-				return "refused" // the handler that would see the cancellation is held
+			if pa != nil || pc != nil {
+				return "refused" // the handler that would see the cancellation is held, or a cancellation is already on its way
+			}
+			if hold && (!sl.modern || !sl.rsubs[u]) {
+				return "refused"
+			}
+			if hold {
+				w.mu.Lock()
+				sl.holdCancel = name
+				w.mu.Unlock()
 			}
 			err = sl.cs.Unsubscribe(context.Background(), &UnsubscribeParams{URI: nfURI(u)})
 			synctest.Wait()
 			delete(sl.rsubs, u)
-			if sl.modern {
+			held := false
+			if hold {
+				w.mu.Lock()
+				held = sl.cancelParked[name] != nil
+				sl.holdCancel = ""
+				w.mu.Unlock()
+			}
+			if held {
+				obs = "ok cancel-held"
+			} else if sl.modern {
 				w.xtag = sl.endedListen(name)
 			}
 		}
@@ -986,7 +1211,7 @@ func (w *nfWorld) apply(toks []string) (obs string) {
 		return w.withStray(obs)
 	case "close":
 		sl, ok := slot(1)
-		if !ok || sl == nil || !sl.connected || len(sl.held) > 0 || len(sl.ackParked) > 0 {
+		if !ok || sl == nil || !sl.connected || len(sl.held) > 0 || len(sl.ackParked) > 0 || len(sl.cancelParked) > 0 {
 			return "refused"
 		}
 		// the raw listens are outstanding calls of the connection: like ClientSession.Close does for the
@@ -1020,14 +1245,35 @@ func (w *nfWorld) apply(toks []string) (obs string) {
 		synctest.Wait()
 		return w.withStray("ok")
 	case "rupdated":
-		u, _ := strconv.Atoi(strings.TrimPrefix(toks[1], "u"))
+		// rupdated u<j> [names u<k>]: ResourceUpdated(u<j>); with `names` the notification the subscribers
+		// get names u<k> (whose content is what changed): a server that reports sub-resources
+		if len(toks) != 2 && !(len(toks) == 4 && toks[2] == "names") {
+			return "bad-op"
+		}
+		u, err := strconv.Atoi(strings.TrimPrefix(toks[1], "u"))
+		if err != nil || u < 0 || u > 2 {
+			return "bad-op"
+		}
+		v := u
+		if len(toks) == 4 {
+			if v, err = strconv.Atoi(strings.TrimPrefix(toks[3], "u")); err != nil || v < 0 || v > 2 {
+				return "bad-op"
+			}
+		}
 		w.mu.Lock()
-		w.content[u]++
+		w.content[v]++
+		if len(toks) == 4 {
+			w.renameTo = v
+		}
 		w.mu.Unlock()
-		if err := w.s.ResourceUpdated(context.Background(), &ResourceUpdatedNotificationParams{URI: nfURI(u)}); err != nil {
+		err = w.s.ResourceUpdated(context.Background(), &ResourceUpdatedNotificationParams{URI: nfURI(u)})
+		synctest.Wait()
+		w.mu.Lock()
+		w.renameTo = -1
+		w.mu.Unlock()
+		if err != nil {
 			return "err"
 		}
-		synctest.Wait()
 		return w.sent(w.takeEvents())
 	case "list":
 		sl, ok := slot(1)
@@ -1145,6 +1391,40 @@ func (w *nfWorld) ackWindows() []string {
 	return out
 }
 
+// cancelWindows lists the listens whose cancellation is held in the client's transport, as "c<i> <name>".
+func (w *nfWorld) cancelWindows() []string {
+	w.mu.Lock()
+	defer w.mu.Unlock()
+	var out []string
+	for i, sl := range w.slots {
+		if sl == nil {
+			continue
+		}
+		var names []string
+		for n := range sl.cancelParked {
+			names = append(names, n)
+		}
+		sort.Strings(names)
+		for _, n := range names {
+			out = append(out, fmt.Sprintf("c%d %s", i, n))
+		}
+	}
+	return out
+}
+
+// fansOpen lists the kinds whose held fan-out is blocked in a write.
+func (w *nfWorld) fansOpen() []string {
+	w.mu.Lock()
+	defer w.mu.Unlock()
+	var out []string
+	for _, k := range nfKinds {
+		if w.fanParked[k] != nil {
+			out = append(out, k)
+		}
+	}
+	return out
+}
+
 func nfRet(v string, hit bool) string {
 	if hit {
 		return "ret " + v + " hit"
@@ -1182,9 +1462,28 @@ func (w *nfWorld) cleanup() {
 			close(ch)
 			delete(sl.ackParked, k)
 		}
+		sl.holdCancel = ""
+		for k, ch := range sl.cancelParked {
+			close(ch)
+			delete(sl.cancelParked, k)
+		}
 		w.mu.Unlock()
 	}
 	synctest.Wait()
+	for rounds := 0; rounds < 8; rounds++ {
+		w.mu.Lock()
+		w.stepKind = ""
+		n := len(w.fanParked)
+		for k, fp := range w.fanParked {
+			close(fp.ch)
+			delete(w.fanParked, k)
+		}
+		w.mu.Unlock()
+		if n == 0 {
+			break
+		}
+		synctest.Wait()
+	}
 	for _, sl := range w.slots {
 		if sl == nil {
 			continue
@@ -1248,6 +1547,12 @@ func nfTag(toks []string, obs string) string {
 		if strings.HasSuffix(obs, " parked") {
 			return toks[0] + "-hold"
 		}
+		if obs == "noack" || obs == "err" {
+			return toks[0] + "-refused-by-handler"
+		}
+		if toks[0] == "xlisten" && strings.Count(obs, " u") >= 2 {
+			return "xlisten-multi-uri"
+		}
 		return toks[0]
 	case "list":
 		f := strings.Fields(obs)
@@ -1260,10 +1565,32 @@ func nfTag(toks []string, obs string) string {
 		}
 		return t
 	case "cbrun", "rupdated":
-		if len(strings.Fields(obs)) > 1 {
-			return toks[0] + "-delivered"
+		if len(toks) == 3 && toks[2] == "step" {
+			return "cbrun-step-" + strings.ReplaceAll(obs, " ", "-")
 		}
-		return toks[0] + "-nobody"
+		name := toks[0]
+		if len(toks) == 4 && toks[2] == "names" {
+			name = "rupdated-names"
+		}
+		if len(strings.Fields(obs)) > 1 {
+			return name + "-delivered"
+		}
+		return name + "-nobody"
+	case "fsend":
+		f := strings.Fields(obs)
+		if len(f) >= 3 {
+			t := "fsend-" + f[len(f)-1]
+			if len(f) == 3 {
+				t += "-dropped"
+			}
+			return t
+		}
+		return "fsend"
+	case "unsubscribe", "xend":
+		if strings.HasSuffix(obs, "cancel-held") {
+			return toks[0] + "-cancel-held"
+		}
+		return toks[0]
 	case "advance":
 		if strings.HasPrefix(obs, "fired ") {
 			return "advance-fired"
@@ -1277,7 +1604,8 @@ func nfTag(toks []string, obs string) string {
 // the world to keep the schedule meaningful.
 func nfRunCase(t *testing.T, hook bool, emit nfEmit, next func(w *nfWorld, step int) string) {
 	synctest.Test(t, func(t *testing.T) {
-		w := &nfWorld{t0: time.Now(), hook: hook, closed: map[*ServerSession]int{}, parked: map[string][]chan struct{}{}}
+		w := &nfWorld{t0: time.Now(), hook: hook, closed: map[*ServerSession]int{}, parked: map[string][]chan struct{}{},
+			refuse: map[int]bool{}, fanParked: map[string]*nfFanSend{}, renameTo: -1}
 		if hook {
 			fn := func(site, detail string) {
 				if site != "notifySessions" {
@@ -1312,21 +1640,34 @@ func nfRunCase(t *testing.T, hook bool, emit nfEmit, next func(w *nfWorld, step 
 				}
 			}
 			inWindow := w.s != nil && len(w.ackWindows()) > 0
+			var wtags []string
+			if w.s != nil && toks[0] != "advance" {
+				if len(w.fansOpen()) > 0 {
+					wtags = append(wtags, "fanwin-"+toks[0]) // the op ran while a fan-out was blocked between two sessions
+				}
+				if len(w.cancelWindows()) > 0 {
+					wtags = append(wtags, "cancelwin-"+toks[0]) // … while a listen's cancellation was on its way
+				}
+			}
 			w.xtag = ""
 			obs := w.apply(toks)
 			if w.xtag != "" {
 				xt := w.xtag
 				w.xtag = ""
 				if inWindow {
-					emit(op, obs, nfTag(toks, obs), xt, "ackwin-"+toks[0])
+					emit(op, obs, append([]string{nfTag(toks, obs), xt, "ackwin-" + toks[0]}, wtags...)...)
 				} else {
-					emit(op, obs, nfTag(toks, obs), xt)
+					emit(op, obs, append([]string{nfTag(toks, obs), xt}, wtags...)...)
 				}
 				continue
 			}
 			if inWindow && toks[0] != "advance" {
 				// the op ran while a listen handler was held right after its ack write
-				emit(op, obs, nfTag(toks, obs), "ackwin-"+toks[0])
+				emit(op, obs, append([]string{nfTag(toks, obs), "ackwin-" + toks[0]}, wtags...)...)
+				continue
+			}
+			if len(wtags) > 0 {
+				emit(op, obs, append([]string{nfTag(toks, obs)}, wtags...)...)
 				continue
 			}
 			if toks[0] == "advance" && !w.hook && w.s != nil {
@@ -1400,7 +1741,7 @@ type nfGen struct {
 	nextSid int
 	tail    []string
 	hook    string
-	focus   int // 0 mixed, 1 debounce window, 2 cache races, 3 subscriptions, 4 windows after an ack write, 5 overlapping listens of one session
+	focus   int // 0 mixed, 1 debounce window, 2 cache races, 3 subscriptions, 4 windows after an ack write, 5 overlapping listens of one session, 6 read cache against updates outside the Subscribe table, 7 fan-outs blocked between two sessions, 8 multi-URI listens and a refusing SubscribeHandler
 	steps   int
 }
 
@@ -1423,6 +1764,9 @@ func (g *nfGen) next(w *nfWorld, step int) string {
 		return fmt.Sprintf("config %s %s %s %s", pc(), pc(), pc(), g.hook)
 	}
 	if step == 1 {
+		if g.focus == 6 {
+			return "ttl 60000"
+		}
 		return "ttl " + g.pick("0", "1", "60000", "60000", "60000")
 	}
 	return g.body(w)
@@ -1455,13 +1799,17 @@ func (g *nfGen) body(w *nfWorld) string {
 		return nfSets[g.rng.Intn(4)]
 	}
 	key := func() string {
+		if g.focus == 6 {
+			return g.pick("read:0", "read:0", "read:1", "read:1", "tools")
+		}
 		if g.focus == 2 {
 			return g.pick("tools", "tools", "tools", "prompts", "resources", "templates", "read:0", "read:1")
 		}
 		return g.pick("tools", "prompts", "resources", "templates", "read:0", "read:1")
 	}
-	changeOp := func() string {
-		f := fs()
+	var changeOf func(f string) string
+	changeOp := func() string { return changeOf(fs()) }
+	changeOf = func(f string) string {
 		nw := w.win[f]
 		size := nw.hi - nw.lo + 1
 		switch r := g.rng.Intn(10); {
@@ -1484,7 +1832,7 @@ func (g *nfGen) body(w *nfWorld) string {
 		}
 		for _, gr := range w.slots[i].grant {
 			for _, x := range gr {
-				if x == "u0" || x == "u1" {
+				if x == "u0" || x == "u1" || x == "u2" {
 					subscribed = append(subscribed, int(x[1]-'0'))
 				}
 			}
@@ -1496,10 +1844,14 @@ func (g *nfGen) body(w *nfWorld) string {
 		return "change " + g.pick("tools", "prompts", "tools", "templates") + " add"
 	}
 	g.steps++
+	if g.focus == 7 && len(conn)+len(gated) < 2 && len(free) > 0 && g.rng.Intn(10) < 7 {
+		g.nextSid++
+		return fmt.Sprintf("connect c%d %d %s %s", free[g.rng.Intn(len(free))], g.nextSid, g.pick("legacy", "legacy", "modern"), g.pick("tpr", "t", "tp", "-"))
+	}
 	if len(conn)+len(gated) == 0 && len(free) > 0 && g.rng.Intn(10) < 6 {
 		g.nextSid++
 		gen := g.pick("legacy", "modern", "modern")
-		if g.focus == 4 || g.focus == 5 {
+		if g.focus == 4 || g.focus == 5 || g.focus == 6 || g.focus == 8 {
 			gen = "modern"
 		}
 		return fmt.Sprintf("connect c%d %d %s %s", free[g.rng.Intn(len(free))], g.nextSid, gen, g.pick("tpr", "tpr", "t", "tp", "r", "-"))
@@ -1544,13 +1896,76 @@ func (g *nfGen) body(w *nfWorld) string {
 			}
 		}
 	}
+	// a fan-out is blocked between two sessions: mostly what matters there — a further change of the
+	// same kind, the timer it arms, the next write, a callback of the re-armed timer running
+	// concurrently, a session closing or connecting
+	if fans := w.fansOpen(); len(fans) > 0 {
+		k := fans[g.rng.Intn(len(fans))]
+		kfs := k
+		if k == "resources" && g.rng.Intn(2) == 0 {
+			kfs = "templates"
+		}
+		switch r := g.rng.Intn(100); {
+		case r < 30:
+			return "fsend " + k
+		case r < 55:
+			return changeOf(kfs)
+		case r < 68:
+			d := int(notificationDelay / time.Millisecond)
+			return fmt.Sprintf("advance %d", []int{d, d, 1, d - 1, 2 * d}[g.rng.Intn(5)])
+		case r < 76 && len(parked) > 0:
+			return "cbrun " + parked[g.rng.Intn(len(parked))]
+		case r < 80 && len(conn) > 0:
+			i := conn[g.rng.Intn(len(conn))]
+			if len(w.slots[i].held) == 0 && len(w.slots[i].ackParked) == 0 && len(w.slots[i].cancelParked) == 0 {
+				return fmt.Sprintf("close c%d", i)
+			}
+		case r < 84 && len(conn) > 0:
+			return fmt.Sprintf("list c%d %s n", conn[g.rng.Intn(len(conn))], map[string]string{"tools": "tools", "prompts": "prompts", "resources": "resources"}[k])
+		}
+	}
+	// the cancellation of a listen is on its way: updates of its URI, reads, bursts of its kinds, the arrival
+	if cw := w.cancelWindows(); len(cw) > 0 {
+		f := strings.Fields(cw[g.rng.Intn(len(cw))])
+		ci := int(f[0][1] - '0')
+		switch r := g.rng.Intn(100); {
+		case r < 22:
+			return "canceldone " + f[0] + " " + f[1]
+		case r < 50:
+			if strings.HasPrefix(f[1], "r") {
+				return "rupdated u" + f[1][1:]
+			}
+			if sl := w.slots[ci]; sl != nil {
+				for _, gr := range sl.grant[f[1]] {
+					if strings.HasPrefix(gr, "u") {
+						return "rupdated " + gr
+					}
+				}
+			}
+			return changeOp()
+		case r < 65:
+			if strings.HasPrefix(f[1], "r") && f[1] != "r2" {
+				return fmt.Sprintf("list c%d read:%s %s", ci, f[1][1:], g.pick("n", "n", "post"))
+			}
+		case r < 72:
+			return "tables"
+		}
+	}
 	// further listens of a connected 2026-07-28 session, overlapping the live ones in kinds or in a URI,
 	// and the end of any live listen (connect-time, per-URI, raw), in any order
 	xp := 7
 	if g.focus == 5 {
 		xp = 40
-	} else if g.focus == 3 {
+	} else if g.focus == 3 || g.focus == 6 {
 		xp = 15
+	} else if g.focus == 8 {
+		xp = 45
+	}
+	holdC := func() string { // the cancellation of the listen that ends is held on its way
+		if g.rng.Intn(10) < 3 || (g.focus == 6 && g.rng.Intn(2) == 0) {
+			return " hold"
+		}
+		return ""
 	}
 	var modernConn []int
 	for _, i := range conn {
@@ -1565,8 +1980,9 @@ func (g *nfGen) body(w *nfWorld) string {
 		for _, n := range sl.order {
 			w.mu.Lock()
 			p := sl.ackParked[n]
+			pc := sl.cancelParked[n]
 			w.mu.Unlock()
-			if p == nil {
+			if p == nil && pc == nil {
 				ends = append(ends, n)
 			}
 		}
@@ -1576,16 +1992,17 @@ func (g *nfGen) body(w *nfWorld) string {
 				g.tail = append(g.tail, "tables")
 			}
 			if strings.HasPrefix(n, "r") {
-				return fmt.Sprintf("unsubscribe c%d u%s", i, n[1:])
+				return fmt.Sprintf("unsubscribe c%d u%s%s", i, n[1:], holdC())
 			}
-			return fmt.Sprintf("xend c%d %s", i, n)
+			return fmt.Sprintf("xend c%d %s%s", i, n, holdC())
 		}
 		var free []string
 		for _, n := range []string{"L1", "L2", "L3"} {
 			w.mu.Lock()
 			p := sl.ackParked[n]
+			pc := sl.cancelParked[n]
 			w.mu.Unlock()
-			if !sl.live[n] && p == nil {
+			if !sl.live[n] && p == nil && pc == nil {
 				free = append(free, n)
 			}
 		}
@@ -1596,15 +2013,33 @@ func (g *nfGen) body(w *nfWorld) string {
 			for _, o := range sl.order {
 				live = append(live, sl.grant[o]...)
 			}
-			what := g.pick("t", "tp", "tpr", "p", "r", "u0", "u1", "pr")
+			what := g.pick("t", "tp", "tpr", "p", "r", "u0", "u1", "pr", "u2")
 			if len(live) > 0 && g.rng.Intn(4) > 0 {
 				what = live[g.rng.Intn(len(live))]
 				if !strings.HasPrefix(what, "u") && g.rng.Intn(2) == 0 {
 					what = g.pick("t", "tp", "tpr", "pr", "r", "p")
 				}
 			}
-			if g.rng.Intn(3) == 0 {
+			if g.rng.Intn(3) == 0 || g.focus == 8 {
 				g.tail = append(g.tail, "tables")
+			}
+			// a raw peer may put several URIs, and kinds beside them, into one request
+			if mp := map[int]int{8: 70, 3: 30, 5: 20, 6: 20}[g.focus]; g.rng.Intn(100) < mp+8 {
+				perm := g.rng.Perm(3)
+				us := ""
+				for _, u := range perm[:2+g.rng.Intn(2)] {
+					us += fmt.Sprintf(" u%d", u)
+				}
+				mask := "-"
+				if !strings.HasPrefix(what, "u") {
+					mask = what
+				} else if g.rng.Intn(3) == 0 {
+					mask = g.pick("t", "tp", "r")
+				}
+				if g.focus == 8 && len(w.refuse) > 0 && g.rng.Intn(2) == 0 {
+					g.tail = append(g.tail, fmt.Sprintf("rupdated u%d", perm[0]))
+				}
+				return fmt.Sprintf("xlisten c%d %s %s%s%s", i, n, mask, us, hold())
 			}
 			if strings.HasPrefix(what, "u") {
 				return fmt.Sprintf("xlisten c%d %s - %s%s", i, n, what, hold())
@@ -1618,7 +2053,22 @@ func (g *nfGen) body(w *nfWorld) string {
 		case len(gated) > 0 && r < 35:
 			return fmt.Sprintf("listen c%d%s", gated[g.rng.Intn(len(gated))], hold())
 		case len(parked) > 0 && r < 45:
-			return "cbrun " + parked[g.rng.Intn(len(parked))]
+			k := parked[g.rng.Intn(len(parked))]
+			if sp := map[int]int{7: 75, 1: 25}[g.focus]; w.hook && w.fanParked[k] == nil && g.rng.Intn(100) < sp+10 {
+				return "cbrun " + k + " step"
+			}
+			return "cbrun " + k
+		case g.focus == 8 && r >= 95:
+			if len(w.refuse) > 0 && g.rng.Intn(3) == 0 {
+				for u := 0; u < 3; u++ {
+					if w.refuse[u] {
+						return fmt.Sprintf("policy u%d accept", u)
+					}
+				}
+			}
+			return fmt.Sprintf("policy u%d refuse", g.rng.Intn(3))
+		case g.focus == 6 && r >= 90 && len(subscribed) > 0:
+			return fmt.Sprintf("rupdated u%d names u%d", subscribed[g.rng.Intn(len(subscribed))], g.rng.Intn(2))
 		case r < 20:
 			return changeOp()
 		case r < 36:
@@ -1648,6 +2098,9 @@ func (g *nfGen) body(w *nfWorld) string {
 			}
 			i := conn[g.rng.Intn(len(conn))]
 			u := g.rng.Intn(2)
+			if g.rng.Intn(5) == 0 {
+				u = 2
+			}
 			if sl := w.slots[i]; sl.modern && !sl.rsubs[u] {
 				if h := hold(); h != "" {
 					return fmt.Sprintf("subscribe c%d u%d hold", i, u)
@@ -1669,12 +2122,22 @@ func (g *nfGen) body(w *nfWorld) string {
 					u = x
 				}
 			}
+			if sl := w.slots[i]; sl.modern && sl.rsubs[u] && sl.ackParked[fmt.Sprintf("r%d", u)] == nil && sl.cancelParked[fmt.Sprintf("r%d", u)] == nil {
+				return fmt.Sprintf("unsubscribe c%d u%d%s", i, u, holdC())
+			}
 			return fmt.Sprintf("unsubscribe c%d u%d", i, u)
 		case r < 68:
 			if len(subscribed) > 0 && g.rng.Intn(4) > 0 {
-				return fmt.Sprintf("rupdated u%d", subscribed[g.rng.Intn(len(subscribed))])
+				u := subscribed[g.rng.Intn(len(subscribed))]
+				if g.rng.Intn(6) == 0 {
+					return fmt.Sprintf("rupdated u%d names u%d", u, g.rng.Intn(3))
+				}
+				return fmt.Sprintf("rupdated u%d", u)
 			}
-			return fmt.Sprintf("rupdated u%d", g.rng.Intn(2))
+			if g.rng.Intn(8) == 0 {
+				return fmt.Sprintf("policy u%d %s", g.rng.Intn(3), g.pick("refuse", "refuse", "accept"))
+			}
+			return fmt.Sprintf("rupdated u%d", g.rng.Intn(3))
 		case r < 70:
 			return "ttl " + g.pick("0", "1", "60000")
 		case r < 72:
@@ -1713,7 +2176,7 @@ func (g *nfGen) body(w *nfWorld) string {
 	return changeOp()
 }
 
-const nfScriptedShapes = 16
+const nfScriptedShapes = 23
 
 // nfScripted: the shapes the property is about, placed at random offsets (so that quick runs always reach them).
 func nfScripted(rng *rand.Rand, hook string, variant int) []string {
@@ -1818,6 +2281,37 @@ func nfScripted(rng *rand.Rand, hook string, variant int) []string {
 			ops = append(ops, "cbrun tools")
 		}
 		ops = append(ops, "ackdone c0 L1", "tables", "xlisten c0 L2 - u1 hold", "subscribe c0 u1", "rupdated u1", "unsubscribe c0 u1", "rupdated u1", "ackdone c0 L2", "xend c0 L2", "tables", "rupdated u1")
+	case 16: // a fan-out blocked between two sessions; a further change lands after the first was written to
+		ops = append(ops, "change tools add", "connect c0 1 legacy -", "connect c1 2 modern t", "listen c1", "change tools add", fmt.Sprintf("advance %d", d))
+		if hook == "hook1" {
+			ops = append(ops, "cbrun tools step", "fsend tools", "change tools add", "list c0 tools n", "fsend tools", fmt.Sprintf("advance %d", d), "cbrun tools")
+		}
+		ops = append(ops, "list c1 tools n")
+	case 17: // three sessions; the re-armed timer's callback runs WHILE the first fan-out is still blocked; a session closes under the blocked loop
+		ops = append(ops, "change prompts add", "connect c0 1 legacy -", "connect c1 2 legacy p", "connect c2 3 modern p", "listen c2", "change prompts add", fmt.Sprintf("advance %d", d))
+		if hook == "hook1" {
+			ops = append(ops, "cbrun prompts step", "fsend prompts", "change prompts replace", fmt.Sprintf("advance %d", d), "cbrun prompts", "close c1", "fsend prompts", "fsend prompts",
+				"change prompts add", fmt.Sprintf("advance %d", d), "cbrun prompts step", "change prompts add", "fsend prompts", "fsend prompts")
+		}
+	case 18: // a multi-URI listen refused at its second URI leaves nothing behind; accepted, it subscribes to all of them
+		ops = append(ops, "change tools add", "connect c0 1 modern -", "policy u1 refuse", "xlisten c0 L1 - u0 u1", "tables", "rupdated u0", "rupdated u1",
+			"policy u1 accept", "xlisten c0 L1 t u0 u1 u2", "tables", "rupdated u2", "rupdated u0", "xend c0 L1", "tables", "rupdated u0")
+	case 19: // a refused request that had shadowed a live stream: the older stream has its entries back; a legacy subscribe refused
+		ops = append(ops, "change tools add", "connect c0 1 modern t", "listen c0", "subscribe c0 u0", "connect c1 2 legacy -", "policy u2 refuse", "xlisten c0 L1 t u0 u2", "tables",
+			"rupdated u0", "subscribe c1 u2", "subscribe c0 u2", "tables", "rupdated u2", "change tools add", fmt.Sprintf("advance %d", d))
+		if hook == "hook1" {
+			ops = append(ops, "cbrun tools")
+		}
+		ops = append(ops, "policy u2 accept", "subscribe c1 u2", "rupdated u2", "unsubscribe c0 u2", "tables")
+	case 20: // the update names a sub-resource of what the client subscribed to: the read cache entry of the NAMED URI goes
+		ops = append(ops, "connect c0 1 modern -", "subscribe c0 u2", "list c0 read:0 n", "list c0 read:0 n", "rupdated u2 names u0", "list c0 read:0 n", "list c0 read:0 n",
+			"list c0 read:1 n", "rupdated u2 names u1", "list c0 read:1 n", "rupdated u2", "list c0 read:1 n")
+	case 21: // the update overtakes the cancellation that ClientSession.Unsubscribe sent on its way
+		ops = append(ops, "connect c0 1 modern -", "subscribe c0 u0", "list c0 read:0 n", "list c0 read:0 n", "unsubscribe c0 u0 hold", "rupdated u0", "list c0 read:0 n", "tables",
+			"canceldone c0 r0", "tables", "rupdated u0", "list c0 read:0 n")
+	case 22: // a stream opened below ClientSession.Subscribe: its updates invalidate too; its cancellation held
+		ops = append(ops, "connect c0 1 modern -", "xlisten c0 L1 - u1", "list c0 read:1 n", "rupdated u1", "list c0 read:1 n", "list c0 read:1 n", "xend c0 L1 hold", "rupdated u1",
+			"list c0 read:1 n", "canceldone c0 L1", "rupdated u1", "list c0 read:1 n", "tables")
 	case 5: // capability inferred at listen time: nothing to list yet
 		ops = append(ops, "connect c0 1 modern tpr", "listen c0", "tables", "change prompts add", fmt.Sprintf("advance %d", d+1))
 		if hook == "hook1" {
@@ -1893,7 +2387,7 @@ func TestVerifNotify(t *testing.T) {
 	n := verifN(3000, 40000)
 	for c := 0; c < n; c++ {
 		rng := verifRng(int64(1000 + c))
-		g := &nfGen{rng: rng, n: 8 + rng.Intn(20), hook: hookTok, focus: c % 6}
+		g := &nfGen{rng: rng, n: 8 + rng.Intn(20), hook: hookTok, focus: c % 9}
 		emit := func(op, obs string, tags ...string) { out.line(fmt.Sprintf("g%d", c), op, obs, tags...) }
 		drained := false
 		nfRunCase(t, hook, emit, func(w *nfWorld, step int) string {
@@ -1924,6 +2418,10 @@ func nfDrain(w *nfWorld, state *bool) string {
 		*state = true
 		return fmt.Sprintf("advance %d", 2*d)
 	}
+	// the held fan-outs run to their end, then every callback that is due
+	if fans := w.fansOpen(); len(fans) > 0 {
+		return "fsend " + fans[0]
+	}
 	w.mu.Lock()
 	for _, k := range nfKinds {
 		if len(w.parked[k]) > 0 {
@@ -1932,6 +2430,9 @@ func nfDrain(w *nfWorld, state *bool) string {
 		}
 	}
 	w.mu.Unlock()
+	if cw := w.cancelWindows(); len(cw) > 0 {
+		return "canceldone " + cw[0]
+	}
 	// every callback has taken its snapshot: now the handlers held after their ack write go on
 	if wins := w.ackWindows(); len(wins) > 0 {
 		return "ackdone " + wins[0]
